@@ -2,7 +2,9 @@
 package recovery
 
 import (
+	stderrors "errors"
 	"fmt"
+	"io/fs"
 	"math"
 	"os"
 	"strings"
@@ -120,7 +122,13 @@ func (dr *DatabaseRecovery) LoadDatabaseWithFallback(primaryPath, personalPath s
 func (dr *DatabaseRecovery) loadWithRetry(primaryPath, personalPath string) (*database.Database, error) {
 	var lastErr error
 
-	for attempt := 1; attempt <= dr.retryConfig.MaxAttempts; attempt++ {
+	// The database must be tried at least once, whatever the configuration says
+	maxAttempts := dr.retryConfig.MaxAttempts
+	if maxAttempts < 1 {
+		maxAttempts = 1
+	}
+
+	for attempt := 1; attempt <= maxAttempts; attempt++ {
 		db, err := database.LoadDatabaseWithPersonal(primaryPath, personalPath)
 		if err == nil {
 			return db, nil
@@ -134,7 +142,7 @@ func (dr *DatabaseRecovery) loadWithRetry(primaryPath, personalPath string) (*da
 		}
 
 		// Don't sleep on the last attempt
-		if attempt < dr.retryConfig.MaxAttempts {
+		if attempt < maxAttempts {
 			delay := dr.calculateDelay(attempt)
 			time.Sleep(delay)
 		}
@@ -145,8 +153,10 @@ func (dr *DatabaseRecovery) loadWithRetry(primaryPath, personalPath string) (*da
 
 // shouldRetry determines if an error is worth retrying
 func (dr *DatabaseRecovery) shouldRetry(err error) bool {
-	// Don't retry for file not found or permission errors
-	if os.IsNotExist(err) || os.IsPermission(err) {
+	// Don't retry for file not found or permission errors. The loader wraps the
+	// underlying error, so look through the whole chain.
+	if os.IsNotExist(err) || os.IsPermission(err) ||
+		stderrors.Is(err, fs.ErrNotExist) || stderrors.Is(err, fs.ErrPermission) {
 		return false
 	}
 
